@@ -212,6 +212,100 @@ NOT_EXCEPTION = {'CancelledError', 'KeyboardInterrupt', 'SystemExit',
                  'GeneratorExit'}
 
 
+def _plain_tuple(n):
+    return isinstance(n, ast.Tuple) and not any(
+        isinstance(e, ast.Starred) for e in n.elts)
+
+
+def _known_truth(n):
+    if isinstance(n, ast.Constant):
+        return bool(n.value)
+    if _plain_tuple(n):
+        return bool(n.elts)
+    return None
+
+
+class _FoldTuple(ast.NodeTransformer):
+    """constant folding over tuple displays (immutable, so what the display
+    says stays true): len / tuple() / constant index and slice / and-or and
+    conditional expressions whose deciding operand is a display or a
+    constant / comparisons of two numeric constants.  Used where a rule binds
+    a variadic parameter to a display of opaque elements (decision tables
+    over the number of arguments)."""
+
+    def visit_Call(self, n):
+        self.generic_visit(n)
+        if isinstance(n.func, ast.Name) and len(n.args) == 1 and \
+                not n.keywords and _plain_tuple(n.args[0]):
+            if n.func.id == 'len':
+                return ast.Constant(len(n.args[0].elts))
+            if n.func.id == 'tuple':
+                return n.args[0]
+        return n
+
+    def visit_Subscript(self, n):
+        self.generic_visit(n)
+        if _plain_tuple(n.value) and isinstance(n.ctx, ast.Load):
+            e = n.value.elts
+            sl = n.slice
+            if isinstance(sl, ast.Constant) and isinstance(sl.value, int) \
+                    and -len(e) <= sl.value < len(e):
+                return e[sl.value]
+            if isinstance(sl, ast.Slice) and sl.step is None and all(
+                    b is None or (isinstance(b, ast.Constant) and
+                                  isinstance(b.value, int))
+                    for b in (sl.lower, sl.upper)):
+                lo = sl.lower.value if sl.lower else None
+                hi = sl.upper.value if sl.upper else None
+                return ast.Tuple(elts=list(e[lo:hi]), ctx=ast.Load())
+        return n
+
+    def visit_BoolOp(self, n):
+        self.generic_visit(n)
+        vals = list(n.values)
+        is_and = isinstance(n.op, ast.And)
+        while len(vals) > 1:
+            t = _known_truth(vals[0])
+            if t is None:
+                break
+            if t == is_and:
+                vals = vals[1:]       # and: true operand drops; or: false
+            else:
+                return vals[0]        # short circuit on the deciding value
+        if len(vals) == 1:
+            return vals[0]
+        return ast.BoolOp(op=n.op, values=vals)
+
+    def visit_IfExp(self, n):
+        self.generic_visit(n)
+        t = _known_truth(n.test)
+        if t is None:
+            return n
+        return n.body if t else n.orelse
+
+    def visit_Compare(self, n):
+        self.generic_visit(n)
+        if len(n.ops) == 1 and isinstance(n.left, ast.Constant) and \
+                isinstance(n.comparators[0], ast.Constant) and \
+                isinstance(n.left.value, (int, float)) and \
+                isinstance(n.comparators[0].value, (int, float)):
+            a, b = n.left.value, n.comparators[0].value
+            op = n.ops[0]
+            r = {ast.Eq: a == b, ast.NotEq: a != b, ast.Lt: a < b,
+                 ast.LtE: a <= b, ast.Gt: a > b, ast.GtE: a >= b}.get(
+                     type(op))
+            if r is not None:
+                return ast.Constant(r)
+        return n
+
+
+def fold_tuple(node):
+    if node is None or not any(isinstance(x, ast.Tuple)
+                               for x in ast.walk(node)):
+        return node
+    return _FoldTuple().visit(copy.deepcopy(node))
+
+
 class Run:
     """One symbolic enumeration of a function body."""
 
@@ -994,6 +1088,7 @@ class Run:
             if sig is not None:
                 out.append((s, None, sig))
                 continue
+            v = fold_tuple(v)
             if isinstance(v, ast.Name):
                 # a local that captured a pure boolean expression
                 # (`catch_all = event not in self.reserved_events`) and is
@@ -1232,6 +1327,23 @@ class Run:
             else:
                 st.env[target.id] = self.fresh(target.id, 'assign', value,
                                                node, st)
+        elif isinstance(target, (ast.Tuple, ast.List)) and \
+                _plain_tuple(value) and sum(
+                    isinstance(e, ast.Starred) for e in target.elts) == 1 \
+                and len(value.elts) >= len(target.elts) - 1:
+            # a, *rest = (x, y, z): the remainder is kept as a display of
+            # its elements (an immutable stand-in for the fresh list)
+            k = [i for i, e in enumerate(target.elts)
+                 if isinstance(e, ast.Starred)][0]
+            after = len(target.elts) - k - 1
+            ve = list(value.elts)
+            for t, v in zip(target.elts[:k], ve[:k]):
+                self.bind(t, v, st, node)
+            mid = ve[k:len(ve) - after]
+            self.bind(target.elts[k].value,
+                      ast.Tuple(elts=mid, ctx=ast.Load()), st, node)
+            for t, v in zip(target.elts[k + 1:], ve[len(ve) - after:]):
+                self.bind(t, v, st, node)
         elif isinstance(target, (ast.Tuple, ast.List)):
             if isinstance(value, (ast.Tuple, ast.List)) and \
                     len(value.elts) == len(target.elts) and \
@@ -1267,6 +1379,7 @@ class Run:
             if sig is not None:
                 out.append((s2, sig))
                 continue
+            v = fold_tuple(v)
             s2 = s2.fork() if s2 is st else s2
             for t in s.targets:
                 self.bind(t, v, s2, s)
